@@ -1,6 +1,6 @@
 """C10 -- UDF bridge fidelity for an independent ECMA-167 reader.  DESIGN.md section 8.10."""
 from harness import common, nsoracles, sysimg, syslevel, sysprops
-from harness.props import udfleaf, vdleaf, udfdirleaf, udflayoutleaf
+from harness.props import udfleaf, vdleaf, udfdirleaf, udflayoutleaf, udfparseleaf
 
 MODULE = 'C10'
 RECIPES = ['udf_fid_cross', 'udf_fid_exact', 'udf_symlinks', 'udf_fid_churn']
@@ -104,6 +104,7 @@ def run(ctx):
     udfleaf.leaf_correspondence(ctx)
     udfdirleaf.correspondence(ctx)
     udflayoutleaf.correspondence(ctx)
+    udfparseleaf.correspondence(ctx)
     quick = ctx.tier == 'quick'
     sysprops.run_oracle(ctx, 'C10', sysprops.histories(ctx, 100 if quick else 2000, RECIPES,
                                                        dict(allow_refusals=False, link_bias=0.2, empty_bias=0.2),
